@@ -362,10 +362,13 @@ func (e *Engine) runPath(fn *ssa.Function, prefix []Decision, sol *Solver, deadl
 		p.finishSched()
 		p.res.Outcome = "return"
 		if e.cfg.ModelPerPath && len(p.res.Violations) == 0 {
-			sol.SetTimeout(e.cfg.ObligMs)
-			if sol.Check() == Sat {
-				iv, m, err := p.model()
-				if err == nil {
+			iv, m := p.smallModel(nil)
+			if iv != nil {
+				trunc := false
+				for _, x := range iv {
+					trunc = trunc || x.Truncated
+				}
+				if !trunc {
 					p.res.Model = iv
 					p.evalObserved(m)
 				}
